@@ -252,8 +252,14 @@ def _run_fid(ctx, spec, rng):
         d = 3 if r == 5 else 2
     else:
         d = [2, 2, 2, 3, 2, 2, 3, 2, 4, 2, 2, 5][r % 12] if r % 24 < 12 else 2
-    kind = ["unitary", "replacement", "cptp", "equal", "mixed-unitary", "unitary"][r % 6]
-    if kind == "unitary":
+    kind = ["unitary", "replacement", "cptp", "equal", "mixed-unitary", "unitary", "real-dtype-vs-complex"][r % 7]
+    if kind == "real-dtype-vs-complex":
+        # the first Choi matrix has a real dtype (identity channel or a real rotation), the second is genuinely complex: closed form for two unitaries
+        u = np.eye(d) if r % 2 else gen.haar(rng, d, real=True)
+        v = u @ gen.haar(rng, d) if r % 3 else u @ np.diag(np.exp(1j * rng.uniform(0.2, 1.2, size=d)))
+        j1, j2 = np.ascontiguousarray(choi([u]).real), choi([v])
+        closed = unitary_delta(u.astype(complex), v)
+    elif kind == "unitary":
         u = gen.haar(rng, d)
         v = near_unitary(rng, u, 0.4 + 0.4 * rng.random())
         j1, j2 = choi([u]), choi([v])
